@@ -545,3 +545,9 @@ for _t in ('quick', 'thorough'):
 PROPS['C20']['quick'] = PROPS['C20']['quick'] + [sideb(['reject'])]
 for _t in ('quick', 'thorough'):
     PROPS['C09'][_t] = PROPS['C09'][_t] + [sideb(['reject'])]
+
+
+# the zero value returned next to an error (C03): zeroValue on every kind of result type
+for _t in ('quick', 'thorough'):
+    PROPS['C03'][_t] = PROPS['C03'][_t] + [tspec('H_zero')]
+PROPS['C03']['covers'] = dict(PROPS['C03'].get('covers', {}), H_zero=['zero'])
